@@ -45,6 +45,102 @@ pub struct RandomParams {
     pub budget: usize,
     pub kinds: Vec<String>,
     pub codes: Vec<String>,
+    /// novelty guidance: prefer the (state, choice) pairs taken least often so far
+    pub guided: bool,
+}
+
+/// how often each (model, input, canonical state, choice) was taken in this harness process
+pub type Visits = std::collections::HashMap<u64, u32>;
+
+fn hash_of(parts: &[&str]) -> u64 {
+    use std::hash::{Hash, Hasher};
+    let mut h = std::collections::hash_map::DefaultHasher::new();
+    for p in parts {
+        p.hash(&mut h);
+    }
+    h.finish()
+}
+
+/// the canonical projection used as the state key: task states by key, queue, budget
+fn state_key(w: &World, pid: &str, budget: usize) -> String {
+    let mut ts: Vec<String> = w
+        .tasks(pid)
+        .iter()
+        .map(|t| format!("{}#{}:{}", t.0.0, t.0.1, t.2))
+        .collect();
+    ts.sort();
+    let mut q: Vec<String> = w.parked(pid).iter().map(|k| format!("{}#{}", k.0, k.1)).collect();
+    q.sort();
+    format!("{}|{}|{}", ts.join(","), q.join(","), budget)
+}
+
+#[derive(Clone, Debug)]
+enum Choice {
+    Exec(Key),
+    Act(Key, String, Value, bool), // target, kind, opts, free (does not use the budget)
+}
+
+impl Choice {
+    fn label(&self) -> String {
+        match self {
+            Choice::Exec(k) => format!("E:{}#{}", k.0, k.1),
+            Choice::Act(k, kind, o, _) => format!("A:{}#{}:{}:{}", k.0, k.1, kind, o),
+        }
+    }
+}
+
+fn enumerate_choices(
+    w: &World,
+    pid: &str,
+    budget: usize,
+    p: &RandomParams,
+    steps_ids: &[String],
+) -> Vec<Choice> {
+    let mut out = Vec::new();
+    for k in w.parked(pid) {
+        out.push(Choice::Exec(k));
+    }
+    let tasks = w.tasks(pid);
+    let none = json!({"ecode": "nil", "to": "nil"});
+    for t in &tasks {
+        if t.1 == "act" && t.2 == "interrupted" {
+            out.push(Choice::Act(t.0.clone(), "complete".to_string(), none.clone(), true));
+        }
+    }
+    if budget > 0 {
+        let mut kinds: Vec<String> = p.kinds.clone();
+        kinds.sort();
+        kinds.dedup();
+        for t in &tasks {
+            if t.1 != "act" {
+                continue;
+            }
+            for kind in &kinds {
+                if kind == "complete" && t.2 == "interrupted" {
+                    continue;
+                }
+                match kind.as_str() {
+                    "error" => {
+                        for c in &p.codes {
+                            out.push(Choice::Act(t.0.clone(), kind.clone(), json!({"ecode": c, "to": "nil"}), false));
+                        }
+                    }
+                    "back" => {
+                        for s in steps_ids {
+                            out.push(Choice::Act(t.0.clone(), kind.clone(), json!({"ecode": "nil", "to": s}), false));
+                        }
+                    }
+                    _ => out.push(Choice::Act(t.0.clone(), kind.clone(), none.clone(), false)),
+                }
+            }
+        }
+        // one non-act target and one unknown target
+        if let Some(t) = tasks.iter().find(|t| t.1 == "step") {
+            out.push(Choice::Act(t.0.clone(), "complete".to_string(), none.clone(), false));
+        }
+        out.push(Choice::Act(("zz".to_string(), 1), "skip".to_string(), none.clone(), false));
+    }
+    out
 }
 
 /// one random scenario on a fresh engine
@@ -56,6 +152,7 @@ pub async fn random_scenario(
     workdir: &str,
     rng: &mut StdRng,
     p: &RandomParams,
+    visits: &mut Visits,
 ) -> Vec<Value> {
     let name = line["name"].as_str().unwrap();
     let model_text = line["model"].as_str().unwrap();
@@ -77,7 +174,44 @@ pub async fn random_scenario(
     w.start_call(&mid, pid, input).await;
     w.launch(pid).await;
     let mut budget = p.budget;
+    if p.guided {
+        let scope = format!("{}|{}", name, input);
+        for _ in 0..p.max_steps {
+            if w.stuck {
+                break;
+            }
+            let choices = enumerate_choices(&w, pid, budget, p, &steps_ids);
+            if choices.is_empty() {
+                break;
+            }
+            let sk = state_key(&w, pid, budget);
+            let counts: Vec<u32> = choices
+                .iter()
+                .map(|c| *visits.get(&hash_of(&[&scope, &sk, &c.label()])).unwrap_or(&0))
+                .collect();
+            let min = *counts.iter().min().unwrap();
+            let best: Vec<usize> = (0..choices.len()).filter(|i| counts[*i] == min).collect();
+            let pick = &choices[*best.choose(rng).unwrap()];
+            *visits.entry(hash_of(&[&scope, &sk, &pick.label()])).or_insert(0) += 1;
+            match pick {
+                Choice::Exec(k) => {
+                    w.exec_task(pid, k).await;
+                }
+                Choice::Act(k, kind, opts, free) => {
+                    w.act(pid, k, kind, opts).await;
+                    if !free {
+                        budget -= 1;
+                    }
+                }
+            }
+        }
+        w.lines.push(json!({"ev": "end", "steps": w.steps}));
+        return std::mem::take(&mut w.lines);
+    }
     for _ in 0..p.max_steps {
+        if w.stuck {
+            break;
+        }
         let parked = w.parked(pid);
         let tasks = w.tasks(pid);
         let open_irqs: Vec<&(Key, String, String, String)> = tasks
@@ -157,10 +291,15 @@ pub fn random(args: &Args) -> i32 {
         budget: args.num("budget", 3) as usize,
         kinds,
         codes: vec!["e1".to_string(), "e2".to_string()],
+        guided: args.get("guided").is_some(),
     };
+    let mut visits = Visits::new();
     let cfg = Cfg::default();
     let mut rng = StdRng::seed_from_u64(seed);
     let offset = args.num("offset", 0) as usize;
+    // one tokio runtime for all scenarios of this process (a runtime per scenario leaks its
+    // epoll/eventfd pair); engines of finished scenarios only leave idle tasks behind
+    let rt = runtime(&flavour);
     for i in 0..runs {
         let mi = if args.get("shuffle").is_some() {
             rng.gen_range(0..models.len())
@@ -170,9 +309,9 @@ pub fn random(args: &Args) -> i32 {
         let line = &models[mi];
         let inputs = line["inputs"].as_array().unwrap();
         let input = inputs.choose(&mut rng).unwrap().clone();
-        let rt = runtime(&flavour);
-        let lines = rt.block_on(random_scenario(line, mi, &input, &cfg, &workdir, &mut rng, &p));
-        rt.shutdown_background();
+        let lines = rt.block_on(random_scenario(
+            line, mi, &input, &cfg, &workdir, &mut rng, &p, &mut visits,
+        ));
         out.write(&lines);
     }
     out.flush();
@@ -234,7 +373,7 @@ pub async fn replay_scenario(
                 false
             }
         };
-        if !ok {
+        if !ok || w.stuck {
             w.lines.push(json!({"ev": "note", "what": "diverged", "at": i + 1, "label": l}));
             diverged = true;
             break;
@@ -273,6 +412,228 @@ pub async fn replay_scenario(
     std::mem::take(&mut w.lines)
 }
 
+// ------------------------------------------------------------------------------------------
+// explore: exhaustive exploration of the IMPLEMENTATION for one small model
+
+/// the exploration key of an engine state: everything the continuation and the history-counting
+/// formulas depend on (task states, links, flags, message counts, accepted actions, queue, budget)
+fn explore_key(w: &World, pid: &str, budget: usize, counts: &std::collections::BTreeMap<String, (u32, u32, u32)>) -> String {
+    let post = w.post();
+    let p = &post["procs"][pid];
+    let mut ts: Vec<String> = Vec::new();
+    if let Some(tasks) = p["tasks"].as_array() {
+        // creation stamps matter only as the order among the tasks hanging off one predecessor
+        for t in tasks {
+            let k = format!("{}#{}", t["k"][0].as_str().unwrap_or(""), t["k"][1]);
+            let rank = tasks
+                .iter()
+                .filter(|u| u["prev"] == t["prev"] && u["seq"].as_u64() < t["seq"].as_u64())
+                .count();
+            let c = counts.get(&k).cloned().unwrap_or((0, 0, 0));
+            ts.push(format!(
+                "{}:{}:{}#{}:{}:{}:{}:{}:{}.{}.{}",
+                k, t["st"].as_str().unwrap_or(""), t["prev"][0].as_str().unwrap_or(""), t["prev"][1], rank,
+                t["err"].as_str().unwrap_or(""), t["emitOff"], t["catchDone"], c.0.min(2), c.1.min(2), c.2.min(2)
+            ));
+        }
+    }
+    ts.sort();
+    let mut q: Vec<String> = w.parked(pid).iter().map(|k| format!("{}#{}", k.0, k.1)).collect();
+    q.sort();
+    format!("{}|{}|{}|{}", ts.join(","), q.join(","), budget, p["ps"].as_str().unwrap_or(""))
+}
+
+struct Frontier {
+    path: Vec<Choice>,
+    key: String,
+}
+
+async fn explore_run(
+    line: &Value,
+    mi: usize,
+    input: &Value,
+    cfg: &Cfg,
+    workdir: &str,
+    p: &RandomParams,
+    path: &[Choice],
+    visited: &mut std::collections::HashSet<String>,
+    explored: &mut std::collections::HashSet<(String, String)>,
+    frontier: &mut Vec<Frontier>,
+    remaining: &mut std::collections::HashMap<String, usize>,
+    run_no: usize,
+) -> Vec<Value> {
+    let name = line["name"].as_str().unwrap();
+    let model_text = line["model"].as_str().unwrap();
+    let mut w = World::new(cfg, workdir, "x", &line["spec"]).await;
+    let tree = engine_tree(model_text);
+    w.model_line(name, tree.clone(), input, json!({"mi": mi + 1, "explore": run_no}));
+    if tree["ok"] != json!(true) || w.deploy(model_text).is_err() {
+        return std::mem::take(&mut w.lines);
+    }
+    let mid = line["spec"]["id"].as_str().unwrap().to_string();
+    let pid = "p1";
+    let mut steps_ids = Vec::new();
+    step_ids(&line["spec"], &mut steps_ids);
+    w.start_call(&mid, pid, input).await;
+    w.launch(pid).await;
+    let mut budget = p.budget;
+    let mut counts: std::collections::BTreeMap<String, (u32, u32, u32)> = Default::default();
+    let mut taken: Vec<Choice> = Vec::new();
+
+    // bookkeeping shared by the prefix replay and the new part
+    async fn apply(
+        w: &mut World,
+        pid: &str,
+        c: &Choice,
+        budget: &mut usize,
+        counts: &mut std::collections::BTreeMap<String, (u32, u32, u32)>,
+    ) {
+        match c {
+            Choice::Exec(k) => {
+                w.exec_task(pid, k).await;
+            }
+            Choice::Act(k, kind, opts, free) => {
+                let ok = w.act(pid, k, kind, opts).await;
+                if ok && !free {
+                    *budget -= 1;
+                }
+                if ok && kind != "cancel" && kind != "push" {
+                    counts.entry(format!("{}#{}", k.0, k.1)).or_insert((0, 0, 0)).2 += 1;
+                }
+            }
+        }
+        if let Some(last) = w.lines.last() {
+            if let Some(gens) = last["gens"].as_array() {
+                for g in gens {
+                    if g["what"] != "message" {
+                        continue;
+                    }
+                    let k = format!("{}#{}", g["t"][0].as_str().unwrap_or(""), g["t"][1]);
+                    let e = counts.entry(k).or_insert((0, 0, 0));
+                    if g["state"] == "created" {
+                        e.0 += 1;
+                    } else {
+                        e.1 += 1;
+                    }
+                }
+            }
+        }
+    }
+
+    w.prefix = !path.is_empty();
+    for c in path {
+        apply(&mut w, pid, c, &mut budget, &mut counts).await;
+        taken.push(c.clone());
+    }
+    w.prefix = false;
+    for _ in 0..p.max_steps {
+        if w.stuck {
+            break;
+        }
+        let key = explore_key(&w, pid, budget, &counts);
+        visited.insert(key.clone());
+        let choices = enumerate_choices(&w, pid, budget, p, &steps_ids);
+        let fresh: Vec<&Choice> = choices
+            .iter()
+            .filter(|c| !explored.contains(&(key.clone(), c.label())))
+            .collect();
+        remaining.insert(key.clone(), fresh.len().saturating_sub(1));
+        if fresh.is_empty() {
+            break;
+        }
+        if fresh.len() > 1 {
+            frontier.push(Frontier { path: taken.clone(), key: key.clone() });
+        }
+        let c = fresh[0].clone();
+        explored.insert((key.clone(), c.label()));
+        apply(&mut w, pid, &c, &mut budget, &mut counts).await;
+        taken.push(c);
+        let nk = explore_key(&w, pid, budget, &counts);
+        if visited.contains(&nk) {
+            // an edge into known territory: recorded, nothing new behind it
+            break;
+        }
+    }
+    w.lines.push(json!({"ev": "end", "steps": w.steps}));
+    std::mem::take(&mut w.lines)
+}
+
+/// every reachable (state, choice) pair of the implementation for each model of a (small) family,
+/// up to the client action budget; one recorded scenario per run
+pub fn explore(args: &Args) -> i32 {
+    let models = read_ndjson(&args.str("models", ""));
+    // --split N: runs are written round-robin to <out>.0 .. <out>.N-1 so that validation
+    // parallelises evenly however unbalanced the models are
+    let split = args.num("split", 1) as usize;
+    let base = args.str("out", "trace.ndjson");
+    let mut outs: Vec<Out> = (0..split)
+        .map(|i| Out::new(&if split == 1 { base.clone() } else { format!("{base}.{i}") }))
+        .collect();
+    let workdir = args.str("workdir", "/verif/.work/run");
+    let kinds: Vec<String> = args.str("kinds", "complete").split(',').map(|s| s.to_string()).collect();
+    let p = RandomParams {
+        max_steps: args.num("steps", 60) as usize,
+        pact: 0.0,
+        budget: args.num("budget", 1) as usize,
+        kinds,
+        codes: args.str("codes", "e1,e2").split(',').map(|s| s.to_string()).collect(),
+        guided: false,
+    };
+    let max_runs = args.num("max-runs", 20000) as usize;
+    let shard = args.num("shard", 0) as usize;
+    let shards = args.num("shards", 1) as usize;
+    let cfg = Cfg::default();
+    let mut total_runs = 0usize;
+    let mut total_states = 0usize;
+    let mut total_edges = 0usize;
+    let mut capped = 0usize;
+    let mut n = 0usize;
+    let rt = runtime("ct");
+    for (mi, line) in models.iter().enumerate() {
+        for input in line["inputs"].as_array().unwrap() {
+            n += 1;
+            if n % shards != shard {
+                continue;
+            }
+            let mut visited = std::collections::HashSet::new();
+            let mut explored = std::collections::HashSet::new();
+            let mut frontier: Vec<Frontier> = vec![Frontier { path: vec![], key: String::new() }];
+            let mut runs = 0usize;
+            let mut remaining: std::collections::HashMap<String, usize> = Default::default();
+            while let Some(f) = frontier.pop() {
+                if !f.key.is_empty() && remaining.get(&f.key).cloned().unwrap_or(1) == 0 {
+                    continue; // everything behind this state was explored through another path
+                }
+                if runs >= max_runs {
+                    capped += 1;
+                    break;
+                }
+                runs += 1;
+                let lines = rt.block_on(explore_run(
+                    line, mi, input, &cfg, &workdir, &p, &f.path, &mut visited, &mut explored,
+                    &mut frontier, &mut remaining, runs,
+                ));
+                outs[runs % split].write(&lines);
+            }
+            total_runs += runs;
+            total_states += visited.len();
+            total_edges += explored.len();
+        }
+    }
+    outs[0].write(&[json!({"ev": "note", "what": "explore summary", "runs": total_runs,
+        "states": total_states, "edges": total_edges, "capped": capped})]);
+    let mut nlines = 0;
+    for o in outs.iter_mut() {
+        o.flush();
+        nlines += o.lines;
+    }
+    eprintln!(
+        "explore: {} runs, {} states, {} edges, {} capped, {} lines",
+        total_runs, total_states, total_edges, capped, nlines
+    );
+    0
+}
+
 /// An ungated run: the engine schedules itself on the runtime's own threads; the harness only
 /// starts the process and answers every open interrupt with complete whenever the engine is
 /// quiescent.  One recorded step per quiescent point.
@@ -297,6 +658,9 @@ pub async fn natural_scenario(
     let pid = "p1";
     w.start_call(&mid, pid, input).await;
     for _ in 0..100 {
+        if w.stuck {
+            break;
+        }
         let tasks = w.tasks(pid);
         let open: Vec<Key> = tasks
             .iter()
@@ -331,15 +695,15 @@ pub fn natural(args: &Args) -> i32 {
     let cfg = Cfg::default();
     let mut rng = StdRng::seed_from_u64(seed);
     let offset = args.num("offset", 0) as usize;
+    let rts: Vec<tokio::runtime::Runtime> = flavours.iter().map(|f| runtime(f)).collect();
     for i in 0..runs {
         let mi = (offset + i) % models.len();
         let line = &models[mi];
         let inputs = line["inputs"].as_array().unwrap();
         let input = inputs.choose(&mut rng).unwrap().clone();
         let flavour = &flavours[i % flavours.len()];
-        let rt = runtime(flavour);
+        let rt = &rts[i % flavours.len()];
         let lines = rt.block_on(natural_scenario(line, mi, &input, &cfg, &workdir, &mut rng, flavour));
-        rt.shutdown_background();
         out.write(&lines);
     }
     out.flush();
@@ -355,10 +719,9 @@ pub fn replay(args: &Args) -> i32 {
     let workdir = args.str("workdir", "/verif/.work/run");
     let drain = args.get("drain").is_some();
     let cfg = Cfg::default();
+    let rt = runtime(&flavour);
     for beh in &behs {
-        let rt = runtime(&flavour);
         let lines = rt.block_on(replay_scenario(&models, beh, &cfg, &workdir, drain));
-        rt.shutdown_background();
         out.write(&lines);
     }
     out.flush();
